@@ -173,14 +173,20 @@ func c18Run(c c18Case) Verdict {
 	stuck := false
 	slowed := 0
 	var ok bool
+	stall := false
 	for {
 		atGate := false
+		bothWrite := false
 		ok = r.Hub.WaitUntil(func() bool {
 			select {
 			case <-done:
 				finished = true
 				return true
 			default:
+			}
+			// unbuffered transport: each end waits for the other to read?
+			if bothWrite = w.S.BlockedInWriteLocked() && w.C.BlockedInWriteLocked(); bothWrite {
+				return true
 			}
 			// both ends wait for each other with nothing in flight: nobody will
 			// ever write again (only the client's 12-minute timeout would end it)
@@ -195,6 +201,13 @@ func c18Run(c c18Case) Verdict {
 			}
 			return false
 		}, harness.Watchdog)
+		if ok && bothWrite && !finished && !stuck {
+			if stall = w.FlowStallNow(); stall {
+				break
+			}
+			time.Sleep(200 * time.Microsecond)
+			continue
+		}
 		if !ok || !atGate || finished || stuck {
 			break
 		}
@@ -211,6 +224,10 @@ func c18Run(c c18Case) Verdict {
 	r.B.ReleaseAll()
 	w.WaitClosed()
 	r.Shutdown()
+	if stall {
+		// (harness.Wire.FlowStallNow: unspecified)
+		return Verdict{Classes: []string{"unbuffered_transport_flow_stall_unspecified"}}
+	}
 	v := Verdict{}
 	multi := len(c.Txns) >= 2
 	refusedAtRcpt, mixed := false, false
